@@ -259,13 +259,14 @@ def add_natives(reg):
     reg.models['Crypto.Hash.BLAKE2s.new'] = blake2s_new
     # --- Util.number: the documented behaviour (minimal big-endian encoding, front-padded to a multiple of blocksize)
     N = 'Crypto.Util.number.'
-    lens = {('len%d' % k): 'blocksize == 0 ==> ((len(result) <= %d) == (n < %d))' % (k, 256 ** k) for k in range(1, 9)}
+    # only the two facts the mode code relies on (fewer hypotheses keep the queries small):
+    #  blocksize == 0: the encoding is minimal, so it has at most k bytes exactly when n < 256**k   (k = 1..8)
+    #  blocksize  > 0 and n fits one block: exactly the blocksize-byte big-endian encoding
+    lens = ' and '.join('((len(result) <= %d) == (n < %d))' % (k, 256 ** k) for k in range(1, 9))
     reg.add(Contract(N + 'long_to_bytes', params={'n': 'int', 'blocksize': 'int'},
                      raises={'ValueError': ('iff', 'n < 0 or blocksize < 0')}, result='bytes',
-                     ensures=dict({'value': 'be(result) == n',
-                                   'minimal': 'blocksize == 0 ==> (len(result) >= 1 and (n == 0 ==> result == bytes(1)) and (n > 0 ==> result[0] != 0))',
-                                   'blocks': 'blocksize > 0 ==> (len(result) % blocksize == 0 and len(result) >= 1)',
-                                   'one_block': '(blocksize > 0 and n < 256 ** blocksize) ==> result == i2osp(n, blocksize)'}, **lens),
+                     ensures={'minimal_len': 'blocksize == 0 ==> (len(result) >= 1 and %s)' % lens,
+                              'one_block': '(blocksize > 0 and n < spec.aead2.pow256(blocksize)) ==> result == i2osp(n, blocksize)'},
                      pure=True, assumed='bounded: bounded/bigint.py number.long_to_bytes against int.to_bytes (minimal length; padded to a multiple of blocksize)'))
     return reg
 
